@@ -131,7 +131,8 @@ func checkC01(c *core.Ctx) {
 }
 
 // knownDrops: the statements a listed finding breaks; a run that met the finding is validated again without them.
-var knownDrops = map[string][]string{"H21-conductivity-negative-low-bulk-density": {"C19_Stable", "C19_Envelope", "C19_MaxPrinciple"}}
+var knownDrops = map[string][]string{"H21-conductivity-negative-low-bulk-density": {"C19_Stable", "C19_Envelope", "C19_MaxPrinciple", "C19_Finite"},
+	"H23-start-parameters-of-another-level": {"C15_SameLevelStart"}}
 
 // knownFor matches a trace violation against the listed known findings of the property (read-only file).
 // A finding matches by invariant name and a predicate on the generating description; anything else stays a violation.
@@ -157,8 +158,14 @@ func knownFor(c *core.Ctx, tr *traceResult) *core.Finding {
 				low = true
 			}
 		}
-		if low && (tr.Violated == "C19_Stable" || tr.Violated == "C19_Envelope" || tr.Violated == "C19_MaxPrinciple") {
+		// (the anti-diffusive scheme grows without bound: after some weeks the values are no longer finite - C19_Finite)
+		if low && (tr.Violated == "C19_Stable" || tr.Violated == "C19_Envelope" || tr.Violated == "C19_MaxPrinciple" || tr.Violated == "C19_Finite") {
 			return c.KnownFinding("H21-conductivity-negative-low-bulk-density")
+		}
+	case "C15":
+		// only the statement about the parameters of the START (Input / Init) when the table rests on the first day(s)
+		if tr.Violated == "C15_SameLevelStart" {
+			return c.KnownFinding("H23-start-parameters-of-another-level")
 		}
 	case "C04":
 		// only the call sites in Run() that drop the error of LoadYear()/WetterK(): the series ends before the run does,
